@@ -31,6 +31,12 @@ numbers of sites confirmed by reading the tree at /repo cc2b0a3:
                            unmodified current date, date += direction days and counter += 1 exactly once on every
                            iteration and after the last use of the date, RuntimeError (and nothing else) after the loop
 
+Scope of the universal quantifiers: op_table looks at *every* return path of a dunder (a shortcut such as
+`if other == 1: return self` is refuted; only raises may precede the combinator); none_is_zero and search are evaluated
+for every concrete definition of get_available_units / get_nearest_availability_date in IResource and its subclasses:
+an override of the search must either be the search loop itself or only delegate to the inherited search with the
+caller's start date, direction and max_days unchanged.
+
 The decision procedures evaluate the (loop free) blocks over finite abstract domains (see c17_util): unit values by
 sign class {None, <0, 0, >0}, dates by their position against a validity interval, direction in {-1, +1}.
 
